@@ -30,13 +30,16 @@
                       R_exited returned (cancel() and wg.Done() have run)
      Close     [cpc]: C_idle; C_called (closeCh closed, about to Lock); C_waiting (in wg.Wait();
                       Original: HOLDING the write lock); C_returned
+     A second Close call [clo2] (overlapping the first, or after it) has the same stages
+     ([Close2Call]: the CAS on [closed], closing closeCh if it wins; [Close2Lock]; [Close2Return]):
+     every Close call runs the barrier and the wait, whoever won the CAS.
      token goroutines (one per Add, counted in [tokens]) block in their select until the run
      loop takes the token ([TakeToken]) or closeCh is closed ([TokenAbort]);
      signal goroutines (one per fireEvent, counted in [inflight]) block until the consumer takes
      the signal ([Deliver]) or the run loop's context is done ([SignalAbort]).
 
    Lock.  Every critical section other than Close's wait is a single event, so the only state in
-   which the RWMutex is held ACROSS events is Original's Close in wg.Wait().  [lock_free] says
+   which the RWMutex is held ACROSS events is an Original Close call in wg.Wait().  [lock_free] says
    so; Add, LoopTop (RLock), HandleToken and TimerFire (Lock) are enabled only when it holds.
 
    Timer.  The timer is due when [deadline <= now].  The code stops it with
@@ -83,7 +86,8 @@ Record state := mk {
   closed : bool;      (* closeCh is closed *)
   ctx_done : bool;    (* the context given to Run is cancelled *)
   run : rpc;
-  clo : cpc;
+  clo : cpc;          (* the first Close call *)
+  clo2 : cpc;         (* a second, overlapping or later, Close call *)
   now : Z;
   (* ghost *)
   adds : Z;           (* Add calls so far *)
@@ -109,6 +113,9 @@ Inductive event :=
 | CloseCall      (* API: Close: close(closeCh) *)
 | CloseLock      (* Close: takes the lock (Fixed: and releases it) and enters wg.Wait() *)
 | CloseReturn    (* Close: wg.Wait() returns (Original: Unlock) *)
+| Close2Call     (* API: a second Close call: CAS on closed (closes closeCh if it wins) *)
+| Close2Lock     (* second Close: takes the lock (Fixed: and releases it), enters wg.Wait() *)
+| Close2Return   (* second Close: wg.Wait() returns (Original: Unlock) *)
 | Advance (d : Z)  (* environment: the clock moves *)
 | Deliver        (* environment: the consumer takes a signal *)
 | CtxCancel.     (* environment: the context given to Run is cancelled *)
@@ -133,7 +140,7 @@ Definition wg (s : state) : Z := tokens s + inflight s + run_alive s.
 (* the RWMutex is free (see the header) *)
 Definition lock_free (v : variant) (s : state) : bool :=
   match v with
-  | Original => negb (cpc_eqb (clo s) C_waiting)
+  | Original => negb (cpc_eqb (clo s) C_waiting) && negb (cpc_eqb (clo2 s) C_waiting)
   | Fixed => true
   end.
 
@@ -163,19 +170,24 @@ Definition drain_blocks (tc : timer_contract) (due : bool) : bool :=
 Definition fire (s : state) : state :=
   if 0 <? pending s then
     mk 0 (tokens s) (inflight s + 1) (has_timer s) (deadline s) (cur_dur s) (backoff s)
-       (closed s) (ctx_done s) (run s) (clo s) (now s)
+       (closed s) (ctx_done s) (run s) (clo s) (clo2 s) (now s)
        (adds s) (dropped s) (covered s + pending s) (spawned s + 1) (delivered s) (exts s)
        (armed_at s) (OSig (now s) :: olog s)
   else s.
 
 Definition set_run (s : state) (r : rpc) : state :=
   mk (pending s) (tokens s) (inflight s) (has_timer s) (deadline s) (cur_dur s) (backoff s)
-     (closed s) (ctx_done s) r (clo s) (now s)
+     (closed s) (ctx_done s) r (clo s) (clo2 s) (now s)
      (adds s) (dropped s) (covered s) (spawned s) (delivered s) (exts s) (armed_at s) (olog s).
 
 Definition set_clo (s : state) (k : cpc) : state :=
   mk (pending s) (tokens s) (inflight s) (has_timer s) (deadline s) (cur_dur s) (backoff s)
-     (closed s) (ctx_done s) (run s) k (now s)
+     (closed s) (ctx_done s) (run s) k (clo2 s) (now s)
+     (adds s) (dropped s) (covered s) (spawned s) (delivered s) (exts s) (armed_at s) (olog s).
+
+Definition set_clo2 (s : state) (k : cpc) : state :=
+  mk (pending s) (tokens s) (inflight s) (has_timer s) (deadline s) (cur_dur s) (backoff s)
+     (closed s) (ctx_done s) (run s) (clo s) k (now s)
      (adds s) (dropped s) (covered s) (spawned s) (delivered s) (exts s) (armed_at s) (olog s).
 
 (* the back-off of the extend branch: (factor', currentDur') *)
@@ -189,7 +201,7 @@ Definition next_backoff (c : cfg) (s : state) : Z * Z :=
 (* handleInputCh, no-timer branch: NewTimer(initial); hasTimer = true; fireEvent *)
 Definition handle_first (c : cfg) (s : state) : state :=
   fire (mk (pending s) (tokens s) (inflight s) true (now s + initial c) (cur_dur s) (backoff s)
-           (closed s) (ctx_done s) R_top (clo s) (now s)
+           (closed s) (ctx_done s) R_top (clo s) (clo2 s) (now s)
            (adds s) (dropped s) (covered s) (spawned s) (delivered s) 0 (now s)
            (ONew (initial c) :: olog s)).
 
@@ -197,7 +209,7 @@ Definition handle_first (c : cfg) (s : state) : state :=
 Definition handle_extend (c : cfg) (s : state) : state :=
   let '(b, d) := next_backoff c s in
   mk (pending s) (tokens s) (inflight s) true (now s + d) d b
-     (closed s) (ctx_done s) R_top (clo s) (now s)
+     (closed s) (ctx_done s) R_top (clo s) (clo2 s) (now s)
      (adds s) (dropped s) (covered s) (spawned s) (delivered s) (exts s + 1) (now s)
      (OExt d :: olog s).
 
@@ -210,7 +222,7 @@ Definition handle_input (c : cfg) (s : state) : state :=
 Definition handle_timer (c : cfg) (s : state) : state :=
   let s1 := fire s in
   mk 0 (tokens s1) (inflight s1) false (deadline s1) (initial c) 1
-     (closed s1) (ctx_done s1) R_top (clo s1) (now s1)
+     (closed s1) (ctx_done s1) R_top (clo s1) (clo2 s1) (now s1)
      (adds s1) (dropped s1) (covered s1) (spawned s1) (delivered s1) 0 (armed_at s1)
      (OExp :: olog s1).
 
@@ -220,12 +232,12 @@ Definition step (v : variant) (c : cfg) (s : state) (e : event) : option state :
       if negb (lock_free v s) then None
       else if is_fixed v && closed s then
         Some (mk (pending s) (tokens s) (inflight s) (has_timer s) (deadline s) (cur_dur s)
-                 (backoff s) (closed s) (ctx_done s) (run s) (clo s) (now s)
+                 (backoff s) (closed s) (ctx_done s) (run s) (clo s) (clo2 s) (now s)
                  (adds s + 1) (dropped s + 1) (covered s) (spawned s) (delivered s) (exts s)
                  (armed_at s) (olog s))
       else
         Some (mk (pending s + 1) (tokens s + 1) (inflight s) (has_timer s) (deadline s)
-                 (cur_dur s) (backoff s) (closed s) (ctx_done s) (run s) (clo s) (now s)
+                 (cur_dur s) (backoff s) (closed s) (ctx_done s) (run s) (clo s) (clo2 s) (now s)
                  (adds s + 1) (dropped s) (covered s) (spawned s) (delivered s) (exts s)
                  (armed_at s) (olog s))
   | LoopTop =>
@@ -233,7 +245,7 @@ Definition step (v : variant) (c : cfg) (s : state) (e : event) : option state :
   | TakeToken =>
       if rpc_eqb (run s) R_select && (0 <? tokens s) then
         Some (mk (pending s) (tokens s - 1) (inflight s) (has_timer s) (deadline s) (cur_dur s)
-                 (backoff s) (closed s) (ctx_done s) R_input (clo s) (now s)
+                 (backoff s) (closed s) (ctx_done s) R_input (clo s) (clo2 s) (now s)
                  (adds s) (dropped s) (covered s) (spawned s) (delivered s) (exts s)
                  (armed_at s) (olog s))
       else None
@@ -249,52 +261,63 @@ Definition step (v : variant) (c : cfg) (s : state) (e : event) : option state :
   | TokenAbort =>
       if (0 <? tokens s) && closed s then
         Some (mk (pending s) (tokens s - 1) (inflight s) (has_timer s) (deadline s) (cur_dur s)
-                 (backoff s) (closed s) (ctx_done s) (run s) (clo s) (now s)
+                 (backoff s) (closed s) (ctx_done s) (run s) (clo s) (clo2 s) (now s)
                  (adds s) (dropped s) (covered s) (spawned s) (delivered s) (exts s)
                  (armed_at s) (olog s))
       else None
   | SignalAbort =>
       if (0 <? inflight s) && sig_ctx_done s then
         Some (mk (pending s) (tokens s) (inflight s - 1) (has_timer s) (deadline s) (cur_dur s)
-                 (backoff s) (closed s) (ctx_done s) (run s) (clo s) (now s)
+                 (backoff s) (closed s) (ctx_done s) (run s) (clo s) (clo2 s) (now s)
                  (adds s) (dropped s) (covered s) (spawned s) (delivered s) (exts s)
                  (armed_at s) (olog s))
       else None
   | CloseCall =>
       if cpc_eqb (clo s) C_idle then
         Some (mk (pending s) (tokens s) (inflight s) (has_timer s) (deadline s) (cur_dur s)
-                 (backoff s) true (ctx_done s) (run s) C_called (now s)
+                 (backoff s) true (ctx_done s) (run s) C_called (clo2 s) (now s)
                  (adds s) (dropped s) (covered s) (spawned s) (delivered s) (exts s)
                  (armed_at s) (olog s))
       else None
   | CloseLock =>
-      if cpc_eqb (clo s) C_called then Some (set_clo s C_waiting) else None
+      if cpc_eqb (clo s) C_called && lock_free v s then Some (set_clo s C_waiting) else None
   | CloseReturn =>
       if cpc_eqb (clo s) C_waiting && (wg s =? 0) then Some (set_clo s C_returned) else None
+  | Close2Call =>
+      if cpc_eqb (clo2 s) C_idle then
+        Some (mk (pending s) (tokens s) (inflight s) (has_timer s) (deadline s) (cur_dur s)
+                 (backoff s) true (ctx_done s) (run s) (clo s) C_called (now s)
+                 (adds s) (dropped s) (covered s) (spawned s) (delivered s) (exts s)
+                 (armed_at s) (olog s))
+      else None
+  | Close2Lock =>
+      if cpc_eqb (clo2 s) C_called && lock_free v s then Some (set_clo2 s C_waiting) else None
+  | Close2Return =>
+      if cpc_eqb (clo2 s) C_waiting && (wg s =? 0) then Some (set_clo2 s C_returned) else None
   | Advance d =>
       if 0 <=? d then
         Some (mk (pending s) (tokens s) (inflight s) (has_timer s) (deadline s) (cur_dur s)
-                 (backoff s) (closed s) (ctx_done s) (run s) (clo s) (now s + d)
+                 (backoff s) (closed s) (ctx_done s) (run s) (clo s) (clo2 s) (now s + d)
                  (adds s) (dropped s) (covered s) (spawned s) (delivered s) (exts s)
                  (armed_at s) (olog s))
       else None
   | Deliver =>
       if 0 <? inflight s then
         Some (mk (pending s) (tokens s) (inflight s - 1) (has_timer s) (deadline s) (cur_dur s)
-                 (backoff s) (closed s) (ctx_done s) (run s) (clo s) (now s)
+                 (backoff s) (closed s) (ctx_done s) (run s) (clo s) (clo2 s) (now s)
                  (adds s) (dropped s) (covered s) (spawned s) (delivered s + 1) (exts s)
                  (armed_at s) (olog s))
       else None
   | CtxCancel =>
       Some (mk (pending s) (tokens s) (inflight s) (has_timer s) (deadline s) (cur_dur s)
-               (backoff s) (closed s) true (run s) (clo s) (now s)
+               (backoff s) (closed s) true (run s) (clo s) (clo2 s) (now s)
                (adds s) (dropped s) (covered s) (spawned s) (delivered s) (exts s)
                (armed_at s) (olog s))
   end.
 
 (* NewCoalescing + Run started (its wg.Add(1) done), nothing else yet *)
 Definition init (c : cfg) : state :=
-  mk 0 0 0 false 0 (initial c) 1 false false R_top C_idle 0 0 0 0 0 0 0 0 [].
+  mk 0 0 0 false 0 (initial c) 1 false false R_top C_idle C_idle 0 0 0 0 0 0 0 0 [].
 
 Fixpoint exec (v : variant) (c : cfg) (s : state) (es : list event) : option state :=
   match es with
@@ -311,8 +334,8 @@ Definition reachable (v : variant) (c : cfg) (s : state) : Prop :=
 Definition internal (e : event) : bool :=
   match e with
   | LoopTop | TakeToken | HandleToken | TakeTimer | TimerFire | RunExit | TokenAbort
-  | SignalAbort | CloseLock | CloseReturn => true
-  | Add | CloseCall | Advance _ | Deliver | CtxCancel => false
+  | SignalAbort | CloseLock | CloseReturn | Close2Lock | Close2Return => true
+  | Add | CloseCall | Close2Call | Advance _ | Deliver | CtxCancel => false
   end.
 
 (* bound on the number of further internal events once the limiter is closed *)
@@ -327,8 +350,10 @@ Definition run_w (s : state) : Z :=
   | R_timer => 6
   end.
 
-Definition clo_w (s : state) : Z :=
-  match clo s with C_idle => 3 | C_called => 2 | C_waiting => 1 | C_returned => 0 end.
+Definition cpc_w (k : cpc) : Z :=
+  match k with C_idle => 3 | C_called => 2 | C_waiting => 1 | C_returned => 0 end.
+
+Definition clo_w (s : state) : Z := cpc_w (clo s) + cpc_w (clo2 s).
 
 Definition measure (s : state) : Z := 5 * tokens s + inflight s + run_w s + clo_w s.
 
